@@ -36,6 +36,8 @@ RemoteRepository.commit_write_group reset the noted misses before returning; rpc
 Branch.set_tags_bytes / Branch.put_config_file touch self._real_branch (or clear the cached state) after the RPC;
 answer-seeded-not-dropped — every return of _get_parent_map_rpc after the NULL_REVISION seed includes it (the last two have
 a known finding each).
+fallback-replays-consumed-argument: a parameter that the try body of a Remote* method iterates (or hands to its *_rpc helper) and that the
+UnknownSmartMethod handler passes to self._real_* is materialised before the try.
 Does not decide: behavioural equivalence of remote and local operations (not applicable to static analysis).
 """
 VERB_RE = re.compile(rb"^(Branch|BzrDir|BzrDirFormat|Repository|PackRepository|Transport|VersionedFileRepository)\.[A-Za-z_0-9.]+$")
@@ -230,8 +232,49 @@ def run(ctx):
     merged = any((call_attr(c) == "update" and any(norm(a) == sv for a in c.args)) for c in calls_in(fgp)) or any(isinstance(a, ast.Assign) and norm(a.value) in (sv, f"dict({sv})") and norm(a.targets[0]) != sv for a in walk_own(fgp))
     dropped = [f"L{r_.lineno}:{norm(r_)[:40]}" for r_ in rets if sv not in {n.id for n in ast.walk(r_.value) if isinstance(n, ast.Name)}] if not merged else []
     ctx.check("answer-seeded-not-dropped", f"{RM}:RemoteRepository._get_parent_map_rpc", not dropped, f"every answer returned after `{sv}` was seeded with NULL_REVISION includes it", construct="; ".join(dropped), message=f"_get_parent_map_rpc answers NULL_REVISION itself ({sv} = {{NULL_REVISION: ()}}) but returns {'; '.join(dropped)} without it when other keys were asked too: get_parent_map([b'null:', rev]) omits null: through a smart server (and the caching provider then notes null: as missing), the local repository returns it")
+    # ---- a fallback that re-reads a parameter the failed attempt already consumed needs it materialised -------------------
+    n_fb = 0
+    #: confirmed by running both: the local implementation needs a re-iterable as well (a generator gives [] on both sides)
+    SAME_CONTRACT = {("RemoteRepository.iter_revisions", "revision_ids")}
+    for q, f in repo.module(RM).functions().items():
+        if "." not in q or not q.split(".")[0].startswith("Remote"):
+            continue
+        params_all = [a.arg for a in f.args.args[1:]]
+        params = [a for a in params_all if (q, a) not in SAME_CONTRACT]
+        for tr in [t for t in walk_own(f) if isinstance(t, ast.Try)]:
+            hs_ = [h for h in tr.handlers if h.type is not None and "UnknownSmartMethod" in norm(h.type)]
+            if not hs_:
+                continue
+            body_mod = ast.Module(body=tr.body, type_ignores=[])
+            for p_ in params:
+                used_in_try = any(isinstance(n_, ast.Name) and n_.id == p_ for n_ in ast.walk(body_mod))
+                replayed = [c for h in hs_ for st in h.body for c in calls_in(st) if (call_recv(c) or "").startswith("self._real_") and any(isinstance(a, ast.Name) and a.id == p_ for a in c.args)]
+                if not (used_in_try and replayed):
+                    continue
+                # only iterables matter: the parameter is iterated or handed on as a whole inside the try body
+                iterated = any(isinstance(n_, (ast.For, ast.comprehension)) and any(isinstance(x, ast.Name) and x.id == p_ for x in ast.walk(n_.iter)) for n_ in ast.walk(body_mod)) or any(any(isinstance(a, ast.Name) and a.id == p_ for a in c.args) and (call_attr(c) or "").endswith("_rpc") for c in calls_in(body_mod))
+                if not iterated:
+                    continue
+                # armed only where a caller in the code base really hands in a one-shot iterable
+                mname = q.split(".")[-1]
+                pidx = params_all.index(p_) if p_ in params_all else 0
+                one_shot = []
+                for rel_ in repo.python_files():
+                    if "/tests/" in rel_ or f".{mname}(" not in repo.text(rel_):
+                        continue
+                    for c in (n_ for n_ in ast.walk(repo.module(rel_).tree) if isinstance(n_, ast.Call)):
+                        if call_attr(c) == mname and len(c.args) > pidx and (isinstance(c.args[pidx], ast.GeneratorExp) or (isinstance(c.args[pidx], ast.Call) and norm(c.args[pidx].func) in ("iter", "map", "filter", "zip", "reversed", "itertools.chain"))):
+                            one_shot.append(f"{rel_}:L{c.lineno}")
+                if not one_shot:
+                    ctx.info("fallback-replays-consumed-argument", f"{RM}:{q}[{p_}]", "replays a consumed argument in its fallback, but no caller in the code base passes a one-shot iterable (lists only); not armed")
+                    continue
+                n_fb += 1
+                solid = any(isinstance(a, ast.Assign) and norm(a.targets[0]) == p_ and isinstance(a.value, ast.Call) and norm(a.value.func) in ("list", "tuple", "sorted", "set", "frozenset") and a.lineno < tr.lineno for a in walk_own(f))
+                ctx.check("fallback-replays-consumed-argument", f"{RM}:{q}[{p_}]", solid, f"`{p_}` is materialised (list/tuple/set) before the attempt that consumes it, so the UnknownSmartMethod fallback can walk it again", construct=f"L{replayed[0].lineno}:{norm(replayed[0])[:70]}", message=f"{q} walks `{p_}` while building the request and passes the same object to the real repository when the server does not know the verb: a caller that hands in a generator silently gets nothing from the fallback, the local repository yields everything")
+    ctx.require(n_fb >= 1, f"{RM}: no fallback that replays a consumed iterable found (hand-confirmed: RemoteRepository.iter_files_bytes)")
 
 MUTANTS = [
+    Mutant("iter_files_bytes fallback replays the consumed argument (fix 2c7db3d reverted)", RM, "        desired_files = list(desired_files)\n        try:\n            absent = {}\n", "        try:\n            absent = {}\n", expect="fallback-replays-consumed-argument"),
     Mutant("commit through the real repository keeps the noted misses (fix e13eeb1 reverted)", RM, "            self._unstacked_provider.missing_keys.clear()\n            return result\n", "            return result\n", expect="commit-drops-negative-cache"),
     Mutant("RPC tag write leaves the real branch's cache (fix 4b9d7f5 reverted)", RM, "            if self._real_branch is not None:\n                # The real branch caches the tags it last read or wrote while\n                # it is locked, and it has not seen this write.\n                self._real_branch._tags_bytes = None\n", "            pass\n", expect="rpc-write-reaches-real-branch"),
     Mutant("repository lock of Branch.lock_write given back only on success", "breezy/bzr/smart/branch.py", "            try:\n                branch_token = branch.lock_write(token=branch_token).token\n            finally:\n                # this leaves the repository with 1 lock\n                branch.repository.unlock()\n", "            branch_token = branch.lock_write(token=branch_token).token\n            branch.repository.unlock()\n", expect="handler-lock-given-back"),
